@@ -43,6 +43,8 @@ def banned_list(repo: Repo, rel: str) -> Set[str]:
 
 
 def check(repo: Repo, R) -> None:
+    from .shared import precedes as shared_before
+
     noret = noreturn_set(repo)
     for cls, sp in SPEC.items():
         ci = repo.cls(sp["rel"], cls)
@@ -73,28 +75,28 @@ def check(repo: Repo, R) -> None:
         guard_txt = "unconditional"
         ev_loops = [lp for lp in au.walk_no_nested(fa.node) if isinstance(lp, ast.For) and isinstance(lp.iter, (ast.Tuple, ast.List)) and pat.find(f"$C.pop({val}.name)", lp) + pat.find(f"$C.pop({val}.name, None)", lp)]
         if ev_loops:
-            from .shared import path_conditions
+            from .shared import path_conditions, conds_imply, parse_cond, prov_text
+
             defs = au.local_defs(fa.node)
-            conj = []
-            for t, pol in path_conditions(fa.node, ev_loops[0]):
-                parts = t.values if isinstance(t, ast.BoolOp) and isinstance(t.op, ast.And) and pol else [t]
-                for x in parts:
-                    conj.append(("" if pol else "not ") + ast.unparse(x))
             oldn = [k for k, v in defs.items() if ast.unparse(v) in (f"{arg}.namespace.get({val}.name, None)", f"{arg}.namespace.get({val}.name)")]
             o = oldn[0] if oldn else "old"
-            allowed = {f"{o} is not None", f"{o} is not {val}", f"{o}"}
-            extra = [c for c in conj if c not in allowed]
-            guard_ok = not extra and bool(oldn)
-            guard_txt = " and ".join(conj) or "unconditional"
+            ev_pc = path_conditions(fa.node, ev_loops[0])
+            st_pc = path_conditions(fa.node, stores[0])
+            # whenever the insertion is reached and another object holds the name, the eviction has run
+            holds = conds_imply(list(st_pc) + [(parse_cond(f"{o} is None"), False), (parse_cond(f"{o} is {val}"), False)], list(ev_pc))
+            guard_ok = bool(oldn) and holds is True
+            guard_txt = " and ".join(("" if pol else "not ") + f"({ast.unparse(t)})" for t, pol in ev_pc) or "unconditional"
             # and the test inside the loop removes exactly the old holder
             inner = [n for n in ast.walk(ev_loops[0]) if isinstance(n, ast.If)]
             if inner:
+                lv = ast.unparse(ev_loops[0].target)
                 it = ast.unparse(inner[0].test)
-                guard_ok = guard_ok and it in (f"ctr.get({val}.name, None) is {o}", f"ctr.get({val}.name) is {o}", f"{val}.name in ctr")
+                pops_in_body = bool(pat.find(f"{lv}.pop({val}.name)", ast.Module(inner[0].body, [])))
+                guard_ok = guard_ok and pops_in_body and it in (f"{lv}.get({val}.name) is {o}", f"{o} is {lv}.get({val}.name)", f"{val}.name in {lv}")
                 guard_txt += f"; per container: {it}"
         # alternative: reject re-use outright
         rejects = any(isinstance(n, ast.If) and ast.unparse(n.test) in (f"{val}.name in {arg}.namespace",) and au.raises(n.body, noret) for n in au.walk_no_nested(fa.node))
-        ok = rejects or (set(kinds) <= evicted and ev_line is not None and ev_line < first_store and guard_ok)
+        ok = rejects or (set(kinds) <= evicted and ev_line is not None and shared_before(fa.node, ev_loops[0], stores[0]) and guard_ok)
         R.check(ok, rule, key_of(fa, cls), fa.site,
                 f"{cls}._add: per-kind containers {kinds}; before inserting, a re-used name is removed from {sorted(evicted) or 'none of them'}"
                 + (" (or re-use is rejected)" if rejects else "") + f"; eviction runs under: {guard_txt}" + ("" if ok else f" — MISSING containers {sorted(set(kinds) - evicted)}" if set(kinds) - evicted else " — the eviction is skipped in some case where another object holds the name"),
@@ -130,17 +132,24 @@ def check(repo: Repo, R) -> None:
         ga = ci.methods["__getattr__"]
         ns_first = bool(pat.find("ns = self.__getattribute__('namespace')", ga.node)) and any(isinstance(n, ast.If) and ast.unparse(n.test) == "key in ns" and isinstance(n.body[-1], ast.Return) and ast.unparse(n.body[-1].value) == "ns[key]" for n in au.walk_no_nested(ga.node))
         g = ci.methods["get"]
-        get_ns = bool(pat.find("ns.get(name, None)", g.node)) and bool(pat.find("ns = self.__getattribute__('namespace')", g.node))
+        grets = shared.returns_of(g.node)
+        get_ns = len(grets) == 1 and shared.prov_text(g.node, grets[0].value) == "self.__getattribute__('namespace').get(name)"
         R.check(ns_first and get_ns, rule, f"{sp['rel']}::{cls}::get-and-getattr-read-namespace", ci.site,
                 f"attribute access returns namespace[key] when present ({ns_first}); get(name) reads the same namespace ({get_ns})", why="get(name) and attribute access return different objects")
 
         # ---- 4 parent link, 5 port view, 6 validation before store
         rule = "C18.4-insert-discipline"
-        pl = [st for st in fa.node.body if isinstance(st, ast.Assign) and ast.unparse(st.targets[0]) == f"{val}.{sp['parent']}" and ast.unparse(st.value) == arg]
+        pl = [st for st in au.stmts(fa.node) if isinstance(st, ast.Assign) and ast.unparse(st.targets[0]) == f"{val}.{sp['parent']}" and ast.unparse(st.value) == arg
+              and {(id(t), p_) for t, p_ in shared.path_conditions(fa.node, st)} == {(id(t), p_) for t, p_ in shared.path_conditions(fa.node, stores[0])}]
         R.check(len(pl) == 1, rule, key_of(fa, f"{cls}-parent-link"), fa.site, f"{cls}._add sets `{val}.{sp['parent']} = {arg}` unconditionally: {len(pl) == 1}", why="the inserted object does not report the container as its parent (Orphanage then rejects or mis-accepts it)")
         both = all(any(ast.unparse(st.targets[0].value) == f"{arg}.namespace" for st in stores) for _ in (0,)) and any(ast.unparse(st.targets[0].value) == "type_ctr" or ast.unparse(st.targets[0].value).startswith(arg + ".") and not ast.unparse(st.targets[0].value).endswith("namespace") for st in stores)
         R.check(both, rule, key_of(fa, f"{cls}-both-views"), fa.site, f"{cls}._add stores into the per-kind container and into the namespace under the same key `{val}.name`: {both}", why="namespace and per-kind views diverge")
-        frz = any(isinstance(n, ast.If) and "_elaborated" in ast.unparse(n.test) and au.raises(n.body, noret) and n.lineno < first_store for n in au.walk_no_nested(fa.node))
+        frz = False
+        for n in au.walk_no_nested(fa.node):
+            if isinstance(n, ast.If) and "_elaborated" in ast.unparse(n.test) and (au.raises(n.body, noret) != au.raises(n.orelse, noret)):
+                live = not au.raises(n.body, noret)
+                # every store (and the eviction) lies in the branch that does not raise
+                frz = all(any(t is n.test and pol == live for t, pol in shared.path_conditions(fa.node, x)) for x in list(stores) + list(ev_loops))
         R.check(frz, rule, key_of(fa, f"{cls}-freeze-guard"), fa.site, f"{cls}._add refuses additions after elaboration before storing anything: {frz}", why="an elaborated definition is modified")
         for meth in ("add", "__setattr__"):
             m = ci.methods[meth]
@@ -149,12 +158,13 @@ def check(repo: Repo, R) -> None:
             ok = bool(asserts) and bool(adds) and max(a.lineno for a in asserts) < min(a.lineno for a in adds)
             R.check(ok, rule, key_of(m, "validated-first"), m.site, f"{cls}.{meth} validates the value's kind before _add stores it: {ok}", why="a non-HDL value (a Module, a Generator, an int) lands in the namespace")
         af = repo.func(sp["rel"], sp["assert_fn"])
-        ok = any(isinstance(n, ast.If) and ast.unparse(n.test).startswith("not ") and au.raises(n.body, noret | {"_attr_type_error"}) for n in au.walk_no_nested(af.node))
+        ok = any(isinstance(n, ast.If) and (au.raises(n.body, noret | {"_attr_type_error"}) != au.raises(n.orelse, noret | {"_attr_type_error"})) for n in au.walk_no_nested(af.node))
         R.check(ok, rule, key_of(af), af.site, f"{sp['assert_fn']} raises for values outside the attribute union: {ok}", why="non-HDL values are accepted")
         addm = ci.methods["add"]
-        neither = c02.has_guard(addm, lambda t: ast.unparse(t) == "name is None and val.name is None", noret)
-        bothn = c02.has_guard(addm, lambda t: ast.unparse(t) == "name is not None and val.name is not None", noret)
-        R.check(neither is not None and bothn is not None, rule, key_of(addm, "naming"), addm.site,
+        neither = shared.raises_under(addm.node, [("name is None", True), ("val.name is None", True)], noret) or None
+        bothn = shared.raises_under(addm.node, [("name is None", False), ("val.name is None", False)], noret) or None
+        one = not shared.raises_under(addm.node, [("name is None", True), ("val.name is None", False)], noret) and not shared.raises_under(addm.node, [("name is None", False), ("val.name is None", True)], noret)
+        R.check(neither is not None and bothn is not None and one, rule, key_of(addm, "naming"), addm.site,
                 f"{cls}.add rejects anonymous values ({neither is not None}) and conflicting names ({bothn is not None})", why="an object is stored under None, or silently renamed")
         sa_name = bool(pat.find("val.name = key", sa.node))
         R.check(sa_name, rule, key_of(sa, "names-by-key"), sa.site, f"{cls}.__setattr__ names the value after the attribute key: {sa_name}", why="the object is stored under a key that differs from its name")
